@@ -173,3 +173,10 @@ def r4(ctx):
 def r5(ctx):
     from . import c03
     c03.r5(ctx)
+
+
+@rule("C05", "R6", "FLOW", "sums, means and medians in the result aggregate exactly the per-point log-densities")
+def r6(ctx):
+    from . import c06
+    c06.r1(ctx)
+    c06.r2(ctx)
